@@ -1,10 +1,12 @@
 import Driver.C13
 import Driver.C14
 import Driver.C15
+import Driver.C09
 
 def main (args : List String) : IO UInt32 := do
   match args with
   | ["c13"] => Driver.C13.run; return 0
   | ["c14"] => Driver.C14.run; return 0
   | ["c15"] => Driver.C15.run; return 0
+  | ["c09"] => Driver.C09.run; return 0
   | _ => IO.eprintln "usage: bufmodel <property-protocol>"; return 2
